@@ -649,6 +649,41 @@ def check_derived(rep: Report, ix, mem: ClassInfo, clf: Classifier) -> None:
     rep.floor("yield sites of StorageBase.items", ny, 1)
 
 
+
+def check_range_defaults(rep: Report, ix) -> None:
+    """extract_time_range: a bound that was given is used as given; the stored range may stand in for `None` only -- a
+    truthiness test (`t_start or self.times[0]`) also replaces the legitimate bound 0"""
+    f = ix.func(BASE, "StorageBase.extract_time_range")
+    rep.saw("functions", f.ref)
+    names = set()
+    for st in ast.walk(f.node):
+        if isinstance(st, ast.Assign) and isinstance(st.targets[0], ast.Tuple) and len(st.targets[0].elts) == 2 and all(isinstance(x, ast.Name) for x in st.targets[0].elts):
+            names |= {x.id for x in st.targets[0].elts}
+    bounds = {n for n in names if n.startswith("t_")}
+    if len(bounds) != 2:
+        raise AnalysisError(f"{f.ref}: the two time bounds were not found (candidates {sorted(names)})")
+    bad = []
+    for x in ast.walk(f.node):
+        if isinstance(x, ast.BoolOp) and any(isinstance(v, ast.Name) and v.id in bounds for v in x.values):
+            bad.append((ast.unparse(x)[:60], x.lineno))
+        if isinstance(x, (ast.If, ast.IfExp)):
+            t = x.test
+            tt = t.operand if isinstance(t, ast.UnaryOp) and isinstance(t.op, ast.Not) else t
+            if isinstance(tt, ast.Name) and tt.id in bounds:
+                bad.append((f"if {ast.unparse(t)}", x.lineno))
+    none_tests = [x for x in ast.walk(f.node) if isinstance(x, ast.Compare) and isinstance(x.left, ast.Name) and x.left.id in bounds and isinstance(x.ops[0], (ast.Is, ast.IsNot)) and isinstance(x.comparators[0], ast.Constant) and x.comparators[0].value is None]
+    rep.oblige("extract_time_range: defaults replace None only", not bad and len(none_tests) >= 2, bad or len(none_tests))
+    for src, line in bad[:1]:
+        rep.violation(
+            "C20.range-default",
+            f"{f.ref}::bound-default",
+            f"a time bound is replaced by the stored range according to its truth value (`{src}`): the bound 0 (falsy) is treated as not given, so the extracted storage holds frames outside the requested range",
+            line=line,
+        )
+    if not bad and len(none_tests) < 2:
+        raise AnalysisError(f"{f.ref}: defaulting idiom of the time bounds not recognised")
+
+
 # ------------------------------------------------------------------------- entry
 def check(tier: str) -> Report:
     rep = Report("C20", tier, "other", "alias typing (FRESH/VIEW) + paired-update rule over structured paths + write-mode table extraction")
@@ -679,6 +714,7 @@ def check(tier: str) -> Report:
     check_clear(rep, ix, clf)
     check_init(rep, ix, clf)
     check_derived(rep, ix, mem, clf)
+    check_range_defaults(rep, ix)
 
     if clf.unresolved:
         rep.note("calls whose result is not classified (UNKNOWN, never accepted as FRESH): " + ", ".join(sorted(clf.unresolved)))
